@@ -1,0 +1,103 @@
+//go:build verif
+
+// Contracts for package ordered_map, read by the verification machinery in /verif.
+// This file contains no executable code; it is compiled only with -tags verif.
+package parser
+
+/*@
+puretype CompFunc
+
+spec n(m *OrderedMap) int := len(m.data) / 2
+spec keyAt(m *OrderedMap, i int) K := m.data[2*i].(K)
+spec valAt(m *OrderedMap, i int) V := m.data[2*i+1].(V)
+
+// what a binary search over a less-sorted slice with an independent eq needs
+spec ordered(eq CompFunc, less CompFunc) bool :=
+     (forall a K :: !less(a, a))
+  && (forall a, b, c K :: less(a, b) && less(b, c) ==> less(a, c))
+  && (forall a, b K :: eq(a, b) <==> (!less(a, b) && !less(b, a)))
+  && (forall a, b, c K :: eq(a, b) && less(b, c) ==> less(a, c))
+  && (forall a, b, c K :: less(a, b) && eq(b, c) ==> less(a, c))
+
+spec typed(m *OrderedMap) bool :=
+  forall i int :: 0 <= i && i < n(m) ==> is[K](m.data[2*i]) && is[V](m.data[2*i+1])
+spec sorted(m *OrderedMap) bool :=
+  forall i, j int :: 0 <= i && i < j && j < n(m) ==> m.less(keyAt(m, i), keyAt(m, j))
+spec wf(m *OrderedMap) bool := m != nil && len(m.data) % 2 == 0 && typed(m) && sorted(m)
+
+spec has(m *OrderedMap, k K) bool := exists i int :: 0 <= i && i < n(m) && m.eq(keyAt(m, i), k)
+
+func (*OrderedMap).binarySearch [C20]
+  returns idx, found
+  safe
+  mode overflow
+  requires wf(m) && ordered(m.eq, m.less)
+  modifies nothing
+  ensures found ==> idx % 2 == 0 && 0 <= idx && idx < len(m.data) && m.eq(keyAt(m, idx/2), key)
+  ensures !found ==> !has(m, key)
+  ensures !found ==> 0 <= idx && idx <= n(m)
+  loop 0 invariant 0 <= low && low <= high && high <= n(m)
+  loop 0 invariant forall i int :: 0 <= i && i < low ==> m.less(keyAt(m, i), key)
+  loop 0 invariant forall i int :: high <= i && i < n(m) ==> m.less(key, keyAt(m, i))
+  loop 0 decreases high - low
+
+func (*OrderedMap).Get [C20]
+  returns v, ok
+  safe
+  requires wf(m) && ordered(m.eq, m.less)
+  modifies nothing
+  ensures ok <==> has(m, key)
+  ensures ok ==> exists i int :: 0 <= i && i < n(m) && m.eq(keyAt(m, i), key) && v == valAt(m, i)
+
+func Len [C20]
+  safe
+  requires m != nil
+  modifies nothing
+  ensures result == n(m)
+
+func New [C20]
+  safe
+  requires capacity >= 0
+  modifies nothing
+  ensures wf(result) && n(result) == 0
+  ensures result.eq == eq && result.less == less
+
+func (*OrderedMap).Set [C20]
+  safe
+  requires wf(m) && ordered(m.eq, m.less)
+  modifies ordered_map.OrderedMap.data, []any
+  ensures len(m.data) % 2 == 0
+  ensures typed(m)
+  ensures sorted(m)
+  ensures m.eq == old(m.eq) && m.less == old(m.less)
+  ensures exists p int :: 0 <= p && p < n(m) && m.eq(keyAt(m, p), key) && valAt(m, p) == value
+  ensures n(m) == old(n(m)) + (old(has(m, key)) ? 0 : 1)
+  // key was present: only its value changed
+  ensures old(has(m, key)) ==> (forall i int :: 0 <= i && i < n(m) ==> keyAt(m, i) == old(keyAt(m, i)))
+  ensures old(has(m, key)) ==> (forall i int :: 0 <= i && i < n(m) && !m.eq(keyAt(m, i), key) ==> valAt(m, i) == old(valAt(m, i)))
+  // key was absent: every old entry survives unchanged, at its index if it is smaller than key, one further right otherwise
+  ensures !old(has(m, key)) ==> (forall i, j int :: 0 <= i && i < old(n(m))
+             && j == (old(m.less(keyAt(m, i), key)) ? i : i + 1)
+             ==> keyAt(m, j) == old(keyAt(m, i)) && valAt(m, j) == old(valAt(m, i)))
+  // ... and nothing else appeared
+  ensures !old(has(m, key)) ==> (forall j, i int :: 0 <= j && j < n(m) && !m.eq(keyAt(m, j), key)
+             && i == (m.less(keyAt(m, j), key) ? j : j - 1)
+             ==> 0 <= i && i < old(n(m)) && keyAt(m, j) == old(keyAt(m, i)) && valAt(m, j) == old(valAt(m, i)))
+  loop 0 invariant i % 2 == 0 && 0 <= i && i <= len(m.data)
+  loop 0 invariant forall j int :: 0 <= j && j < i/2 ==> !m.less(key, keyAt(m, j))
+  loop 0 decreases len(m.data) - i
+
+func (*OrderedMap).Delete [C20]
+  safe
+  requires wf(m) && ordered(m.eq, m.less)
+  modifies ordered_map.OrderedMap.data, []any
+  ensures len(m.data) % 2 == 0
+  ensures typed(m)
+  ensures sorted(m)
+  ensures m.eq == old(m.eq) && m.less == old(m.less)
+  ensures !has(m, key)
+  ensures n(m) == old(n(m)) - (old(has(m, key)) ? 1 : 0)
+  ensures forall i, j int :: 0 <= i && i < old(n(m)) && !old(m.eq(keyAt(m, i), key))
+             && j == ((old(m.less(keyAt(m, i), key)) || !old(has(m, key))) ? i : i - 1)
+             ==> 0 <= j && j < n(m) && keyAt(m, j) == old(keyAt(m, i)) && valAt(m, j) == old(valAt(m, i))
+@*/
